@@ -109,7 +109,16 @@ def run(prop, seed, budget, ctx):
 
     caches = {}
     orig_rc = recursion.recursion_cache
-    recursion.recursion_cache = lambda cls: caches.setdefault(cls, YDict())
+    def _rc(cls):
+        # `recursion_cache` is an lru_cache'd function returning a fresh dict: a hit returns the stored dict; on a miss the
+        # function body runs (a yield point: another thread may miss as well), the first result is stored, and every caller
+        # gets the dict *it* computed - the loser of a concurrent miss holds a private dict
+        if cls in caches: return caches[cls]
+        if state["sched"]: state["sched"].point()
+        d = YDict()
+        if cls not in caches: caches[cls] = d
+        return d
+    recursion.recursion_cache = _rc
     orig_lock = getattr(recursion, "_lock", None)
     if orig_lock is not None: recursion._lock = SchedLock(lambda: state["sched"], tl)
     try:
@@ -189,6 +198,47 @@ def run(prop, seed, budget, ctx):
                              "results": res, "sequential": want, "deadlock": not finished, "yield_points": sched.steps,
                              "why": ["concurrent-first-use-differs-from-sequential" if finished else "threads-did-not-finish"]})
         hist["lazy-yield-points:%d" % min(sched.steps, 9)] += 1
+    # (i-c) JSON schema generation by two or three threads under generated schedules: yield points are injected through a
+    # user default_conversion, which every visitor calls for every visited type; each result must be the sequential one
+    from apischema.json_schema import serialization_schema
+    from apischema.conversions.converters import default_serialization
+    def ydc(tp):
+        if state["sched"]: state["sched"].point()
+        return default_deserialization(tp)
+    def yds(tp):
+        if state["sched"]: state["sched"].point()
+        return default_serialization(tp)
+    sch_src = list(HEADER) + ["from apischema import deserializer, serializer", ""]
+    ns_ = 16 * budget
+    for i in range(ns_):
+        sch_src += ["@dataclass", f"class SItem{i}:", "    name: str", "", "@dataclass", f"class SBar{i}:", "    x: int", "",
+                    f"class SFoo{i}:", "    def __init__(self, x: int):", "        self.x = x", "",
+                    "@deserializer", f"def sfoo_from_bar{i}(bar: SBar{i}) -> SFoo{i}:", f"    return SFoo{i}(bar.x)", "",
+                    "@serializer", f"def sfoo_to_bar{i}(foo: SFoo{i}) -> SBar{i}:", f"    return SBar{i}(foo.x)", "",
+                    "@dataclass", f"class SHold{i}:", f"    foo: SFoo{i}", f"    items: List[SItem{i}] = field(default_factory=list)", f"    again: Optional[SFoo{i}] = None", ""]
+    smod = build_module(sch_src, f"recsch{seed}"); sns = dict(vars(smod))
+    for i in range(ns_):
+        Item, Foo, Hold = sns[f"SItem{i}"], sns[f"SFoo{i}"], sns[f"SHold{i}"]
+        jobs = {"A": lambda: deserialization_schema(List_(Item), default_conversion=ydc), "B": lambda: deserialization_schema(Foo, default_conversion=ydc),
+                "C": lambda: serialization_schema(Hold, default_conversion=yds)}
+        if i % 2: jobs["C"] = lambda: deserialization_schema(Hold, default_conversion=ydc, all_refs=True)
+        want = {k: json.dumps(fn(), sort_keys=True) for k, fn in jobs.items()}
+        res = {}
+        def mk(name):
+            def fn():
+                try: res[name] = json.dumps(jobs[name](), sort_keys=True)
+                except BaseException as e: res[name] = "EXC:" + type(e).__name__ + ":" + str(e)[:60]
+            return fn
+        schedule = [rnd.choice("ABC") for _ in range(120)]
+        sched = Sched(schedule, tl); state["sched"] = sched
+        finished = sched.start({k: mk(k) for k in jobs})
+        state["sched"] = None
+        evaluations += 1; distinct.add(("schema", i, "".join(schedule[:20])))
+        if not finished or res != want:
+            failures.append({"kind": "P", "k_ok": True, "mode": "schema-generation", "classes": sch_src[2 + 24 * i: 2 + 24 * (i + 1)], "schedule": "".join(schedule),
+                             "results": res, "sequential": want, "deadlock": not finished, "yield_points": sched.steps,
+                             "why": ["concurrent-first-use-differs-from-sequential" if finished else "threads-did-not-finish"]})
+        hist["schema-yield-points:%d" % min(sched.steps // 10 * 10, 90)] += 1
     # (ii) stress on the unpatched package: real pre-emption
     old = sys.getswitchinterval(); sys.setswitchinterval(1e-6)
     try:
@@ -213,9 +263,13 @@ def run(prop, seed, budget, ctx):
             for th in ths: th.start()
             for th in ths: th.join(60)
             evaluations += 1
-            seq = [jobs[k % len(jobs)]() for k in range(nthreads)]          # afterwards, sequentially (caches warm and, if correct, equal)
+            def guarded(fn):
+                # (a corrupted recursion verdict makes every later use raise RecursionError: an outcome, not an engine failure)
+                try: return fn()
+                except BaseException as e: return "EXC:" + type(e).__name__ + ":" + str(e)[:80]
+            seq = [guarded(jobs[k % len(jobs)]) for k in range(nthreads)]          # afterwards, sequentially (caches warm and, if correct, equal)
             cache_mod.reset()
-            cold = [jobs[k % len(jobs)]() for k in range(nthreads)]         # and from cold caches
+            cold = [guarded(jobs[k % len(jobs)]) for k in range(nthreads)]         # and from cold caches
             if out != seq or seq != cold:
                 failures.append({"kind": "P", "k_ok": True, "mode": "stress", "round": i, "concurrent": out, "sequential_after": seq, "sequential_cold": cold,
                                  "why": ["concurrent-first-use-differs-from-sequential"]})
@@ -225,6 +279,7 @@ def run(prop, seed, budget, ctx):
     return {"evaluations": evaluations, "distinct_nontrivial": len(distinct),
             "rule": "schedule replay: 4 generated schedules (80 choices) x fresh instances of 4 class graphs (self-recursive through a list, mutually recursive, "
                     "recursive through Optional and Dict with three threads, non-recursive), yield points at every read / write of the shared recursion cache; "
+                    "schema generation (deserialization / serialization schemas of classes with registered conversions, three threads) under schedules with yield points in a user default_conversion; "
                     "stress: 8 threads behind a barrier, 1 us switch interval, first deserialize / serialize / schema on fresh recursive classes; "
                     "non-trivial = every schedule (two or three threads race on first use); distinct by (graph shape, schedule prefix)",
             "samples": samples, "histograms": dict(hist), "failures": failures}
